@@ -35,12 +35,12 @@ __CPROVER_ensures(g_pipe_close_calls == OLD(g_pipe_close_calls) + 1 && g_pipe_cl
 #define R_SAMECLOSE (g_pipe_close_calls == OLD(g_pipe_close_calls))
 #define R_SAMERECV (g_pipe_recv_calls == OLD(g_pipe_recv_calls))
 #define R_SAMEFIN (g_fin_calls == OLD(g_fin_calls))
-/* outcomes */
-#define R_O_DISCONN (R_DISCONN && R_SAMERECV && R_SAMEFIN && R_FREED)
-#define R_O_DROPPED (R_SAMECLOSE && R_REARMED && R_SAMEFIN && R_FREED)
-#define R_O_DISCARD (R_SAMECLOSE && R_SAMERECV && R_SAMEFIN && R_FREED)       /* pipe already closed */
-#define R_O_HELD (R_SAMECLOSE && R_SAMERECV && R_SAMEFIN && !R_FREED)         /* nobody waiting */
-#define R_O_DELIVERED (R_SAMECLOSE && R_REARMED && R_FINISHED && !R_FREED)
+/* outcomes (told apart by what the environment saw; whether the message was freed is stated once) */
+#define R_O_DISCONN (R_DISCONN && R_SAMERECV && R_SAMEFIN)
+#define R_O_DROPPED (R_SAMECLOSE && R_REARMED && R_SAMEFIN)
+#define R_O_DISCARD (R_SAMECLOSE && R_SAMERECV && R_SAMEFIN && RP->aio_recv.a_msg == NULL) /* pipe already closed */
+#define R_O_HELD (R_SAMECLOSE && R_SAMERECV && R_SAMEFIN && RP->aio_recv.a_msg != NULL)    /* nobody waiting */
+#define R_O_DELIVERED (R_SAMECLOSE && R_REARMED && R_FINISHED)
 #define R_HL (OLD(RM)->m_header_len)
 static void rep0_pipe_recv_cb(void *arg)
 __CPROVER_requires(__CPROVER_is_fresh(arg, sizeof(struct rep0_pipe)))
@@ -48,52 +48,87 @@ __CPROVER_requires(__CPROVER_is_fresh(RS, sizeof(struct rep0_sock)) && RR_TTL_OK
 __CPROVER_requires(RP->aio_recv.a_result == 0 && RR_WIRE_MSG(RM) && CH_GHOST_PRE(&RM->m_body) && RR_BODY_GHOSTS(RM))
 /* the pipe is not yet on the list of pipes holding a request (one receive outstanding per pipe) */
 __CPROVER_requires(NODE_IDLE(&RP->rnode) && RP->id == g_pipe_id)
-__CPROVER_requires(REP_RECVQ_PRE(RS) && REP_RECVPIPES_PRE(RS))
+__CPROVER_requires(REP_RECVQ_PRE(RS))
+__CPROVER_requires(REP_RECVPIPES_PRE(RS))
 __CPROVER_requires(g_pollr_addr == &RS->readable && g_pollw_addr == &RS->writable)
 __CPROVER_assigns(RP->aio_recv.a_msg, RP->rnode, RS->recvq.ll_head, RS->recvpipes.ll_head, VP_PROTO_GHOST_LIST, VP_SYNC_GHOSTS, g_free_calls)
 __CPROVER_assigns(*RM)
-__CPROVER_assigns(g_rq_shape >= 1: C1->raio, C1->rqnode, C1->btrace_len, C1->btrace, C1->pipe_id, C1->raio->a_msg)
-__CPROVER_assigns(g_rq_shape == 2: C2->rqnode)
-__CPROVER_assigns(g_rp_shape == 1: P1->rnode)
+#if REP_RQ >= 1
+__CPROVER_assigns(C1->raio, C1->rqnode, C1->btrace_len, C1->btrace, C1->pipe_id, C1->raio->a_msg)
+#endif
+#if REP_RQ == 2
+__CPROVER_assigns(C2->rqnode)
+#endif
+#if REP_RP == 1
+__CPROVER_assigns(P1->rnode)
+#endif
 __CPROVER_frees(RM, RM->m_body.ch_buf)
 __CPROVER_ensures(VP_NO_LOCK_HELD)
 #ifndef RP_MIN
-/* exactly one outcome */
-__CPROVER_ensures(R_O_DISCONN || R_O_DROPPED || R_O_DISCARD || R_O_HELD || R_O_DELIVERED)
-/* which one, for an open pipe: malformed/too long are decided by the body alone; an
- * accepted request goes to the first waiting context iff there is one */
+/* exactly one outcome; an accepted request on an open pipe goes to the first waiting context iff there is one */
+#if REP_RQ == 0
+__CPROVER_ensures(R_O_DISCONN || R_O_DROPPED || R_O_DISCARD || R_O_HELD)
+__CPROVER_ensures(R_O_HELD ==> !RP->closed)
+#else
+__CPROVER_ensures(R_O_DISCONN || R_O_DROPPED || R_O_DISCARD || R_O_DELIVERED)
+__CPROVER_ensures(R_O_DELIVERED ==> !RP->closed)
+#endif
+/* freed exactly when it is neither delivered nor held */
+__CPROVER_ensures(R_FREED == (R_O_DISCONN || R_O_DROPPED || R_O_DISCARD))
 __CPROVER_ensures(R_O_DISCARD ==> RP->closed)
-__CPROVER_ensures((R_O_HELD || R_O_DELIVERED) ==> !RP->closed)
-__CPROVER_ensures(R_O_HELD ==> OLD(g_rq_shape) == 0)
-__CPROVER_ensures(R_O_DELIVERED ==> OLD(g_rq_shape) >= 1)
+#ifndef RP_SKIP_B
 /* disconnected ==> GARBAGE (never delivered, freed) */
-__CPROVER_ensures(R_O_DISCONN ==> (g_pipe_close_last == RP->pipe && RP->aio_recv.a_msg == NULL && ROLDLEN / 4 < (size_t) RS->ttl.v && RR_NO_END_BELOW(ROLDLEN / 4)))
+__CPROVER_ensures(R_O_DISCONN ==> (g_pipe_close_last == RP->pipe && RP->aio_recv.a_msg == NULL && (ROLDLEN >> 2) < (size_t) RS->ttl.v && RR_NO_END_BELOW(ROLDLEN >> 2)))
 /* dropped ==> TOOMANY (NOT disconnected, receive re-armed) */
-__CPROVER_ensures(R_O_DROPPED ==> (g_pipe_recv_pipe == RP->pipe && g_pipe_recv_aio == &RP->aio_recv && RP->aio_recv.a_msg == NULL && ROLDLEN / 4 >= (size_t) RS->ttl.v && RR_NO_END_BELOW(RS->ttl.v)))
-__CPROVER_ensures(R_O_DISCARD ==> RP->aio_recv.a_msg == NULL)
-/* nothing but delivery touches a context or the context queue */
-__CPROVER_ensures((!R_O_DELIVERED && OLD(g_rq_shape) == 1) ==> (LIST_IS_ONE(&RS->recvq, &C1->rqnode) && C1->raio == OLD(C1->raio)))
-__CPROVER_ensures((!R_O_DELIVERED && OLD(g_rq_shape) == 2) ==> (LIST_IS_TWO(&RS->recvq, &C1->rqnode, &C2->rqnode) && C1->raio == OLD(C1->raio)))
+__CPROVER_ensures(R_O_DROPPED ==> (g_pipe_recv_pipe == RP->pipe && g_pipe_recv_aio == &RP->aio_recv && RP->aio_recv.a_msg == NULL && (ROLDLEN >> 2) >= (size_t) RS->ttl.v && RR_NO_END_BELOW(RS->ttl.v)))
+#endif
+#if REP_RQ == 0
+#ifndef RP_SKIP_C
 /* held ==> ACCEPT: the message stays with the pipe, header = [w_0..w_n], body = rest; pipe queued last; socket readable */
-__CPROVER_ensures(R_O_HELD ==> (RP->aio_recv.a_msg == OLD(RM) && R_HL >= 4 && R_HL % 4 == 0 && R_HL <= MSG_HDRCAP && R_HL / 4 <= (size_t) RS->ttl.v
-    && R_HL <= ROLDLEN && OLD(RM)->m_body.ch_len == ROLDLEN - R_HL && OLD(RM)->m_pipe == RP->id && g_pollr
-    && (OLD(g_rp_shape) == 0 ? LIST_IS_ONE(&RS->recvpipes, &RP->rnode) : LIST_IS_TWO(&RS->recvpipes, &P1->rnode, &RP->rnode))))
+__CPROVER_ensures(R_O_HELD ==> (RP->aio_recv.a_msg == OLD(RM) && R_HL >= 4 && (R_HL & 3) == 0 && R_HL <= MSG_HDRCAP && (R_HL >> 2) <= (size_t) RS->ttl.v
+    && R_HL <= ROLDLEN && OLD(RM)->m_body.ch_len == ROLDLEN - R_HL && OLD(RM)->m_pipe == RP->id && g_pollr))
+#endif
+#ifndef RP_SKIP_D
+#if REP_RP == 0
+#ifndef RP_SKIP_D1
+__CPROVER_ensures(R_O_HELD ==> LIST_IS_ONE(&RS->recvpipes, &RP->rnode))
+#endif
+#ifndef RP_SKIP_D2
+__CPROVER_ensures(!R_O_HELD ==> (LIST_IS_EMPTY(&RS->recvpipes) && NODE_IDLE(&RP->rnode)))
+#endif
+#else
+__CPROVER_ensures(R_O_HELD ? LIST_IS_TWO(&RS->recvpipes, &P1->rnode, &RP->rnode) : (LIST_IS_ONE(&RS->recvpipes, &P1->rnode) && NODE_IDLE(&RP->rnode)))
+#endif
+#endif
+#ifndef RP_SKIP_E
 __CPROVER_ensures((R_O_HELD && g_k < R_HL) ==> HDR(OLD(RM))[g_k] == g_b)
-__CPROVER_ensures(R_O_HELD ==> (RR_NO_END_BELOW(R_HL / 4 - 1) && (g_k == R_HL - 4 ==> RR_HB(g_b))))
+__CPROVER_ensures(R_O_HELD ==> (RR_NO_END_BELOW((R_HL >> 2) - 1) && (g_k == R_HL - 4 ==> RR_HB(g_b))))
 __CPROVER_ensures((R_O_HELD && g_k >= R_HL && g_k < ROLDLEN) ==> OLD(RM)->m_body.ch_ptr[g_k - R_HL] == g_b)
+#endif
+#ifndef RP_SKIP_D3
+__CPROVER_ensures(LIST_IS_EMPTY(&RS->recvq))
+#endif
+#else
 /* delivered ==> ACCEPT: exactly the FIRST waiting context gets it, once; that context captures the
  * backtrace [w_0..w_n] and the origin pipe id; the application sees the body behind the request id, no header */
 __CPROVER_ensures(R_O_DELIVERED ==> (RP->aio_recv.a_msg == NULL && g_fin_last == OLD(C1->raio) && g_fin_last_rv == 0 && g_fin_last_msg == OLD(RM) && C1->raio == NULL
-    && C1->btrace_len >= 4 && C1->btrace_len % 4 == 0 && C1->btrace_len <= MSG_HDRCAP && C1->btrace_len / 4 <= (size_t) RS->ttl.v
+    && C1->btrace_len >= 4 && (C1->btrace_len & 3) == 0 && C1->btrace_len <= MSG_HDRCAP && (C1->btrace_len >> 2) <= (size_t) RS->ttl.v
     && C1->pipe_id == RP->id && R_HL == 0 && OLD(RM)->m_pipe == RP->id
     && C1->btrace_len <= ROLDLEN && OLD(RM)->m_body.ch_len == ROLDLEN - C1->btrace_len && g_fin_last_count == OLD(RM)->m_body.ch_len
-    && g_pipe_recv_pipe == RP->pipe && g_pipe_recv_aio == &RP->aio_recv
-    && NODE_IDLE(&C1->rqnode) && (OLD(g_rq_shape) == 1 ? LIST_IS_EMPTY(&RS->recvq) : LIST_IS_ONE(&RS->recvq, &C2->rqnode))))
+    && g_pipe_recv_pipe == RP->pipe && g_pipe_recv_aio == &RP->aio_recv && NODE_IDLE(&C1->rqnode)))
 __CPROVER_ensures((R_O_DELIVERED && g_k < C1->btrace_len) ==> BT(C1)[g_k] == g_b)
-__CPROVER_ensures(R_O_DELIVERED ==> (RR_NO_END_BELOW(C1->btrace_len / 4 - 1) && (g_k == C1->btrace_len - 4 ==> RR_HB(g_b))))
+__CPROVER_ensures(R_O_DELIVERED ==> (RR_NO_END_BELOW((C1->btrace_len >> 2) - 1) && (g_k == C1->btrace_len - 4 ==> RR_HB(g_b))))
 __CPROVER_ensures((R_O_DELIVERED && g_k >= C1->btrace_len && g_k < ROLDLEN) ==> OLD(RM)->m_body.ch_ptr[g_k - C1->btrace_len] == g_b)
-/* the pipes already holding requests are not disturbed by delivery */
-__CPROVER_ensures((!R_O_HELD && OLD(g_rp_shape) == 1) ==> LIST_IS_ONE(&RS->recvpipes, &P1->rnode))
+/* the socket becomes writable when its own context got the request and the origin pipe is free */
+__CPROVER_ensures((R_O_DELIVERED && g_c1_master && !RP->busy) ==> g_pollw)
+/* nothing but delivery touches a context or the context queue; delivery removes exactly the first */
+#if REP_RQ == 1
+__CPROVER_ensures(R_O_DELIVERED ? LIST_IS_EMPTY(&RS->recvq) : (LIST_IS_ONE(&RS->recvq, &C1->rqnode) && C1->raio == OLD(C1->raio) && C1->btrace_len == OLD(C1->btrace_len) && C1->pipe_id == OLD(C1->pipe_id)))
+#else
+__CPROVER_ensures(R_O_DELIVERED ? LIST_IS_ONE(&RS->recvq, &C2->rqnode) : (LIST_IS_TWO(&RS->recvq, &C1->rqnode, &C2->rqnode) && C1->raio == OLD(C1->raio) && C1->btrace_len == OLD(C1->btrace_len) && C1->pipe_id == OLD(C1->pipe_id)))
+#endif
+__CPROVER_ensures(LIST_IS_EMPTY(&RS->recvpipes) && NODE_IDLE(&RP->rnode))
+#endif
 #endif
 ;
 #endif
